@@ -41,7 +41,10 @@ func newRig(w, h int, charset string) *rig {
 }
 
 // feed delivers one report in one read and lets the timeout pass.
+var curFeed []byte
+
 func (r *rig) feed(b []byte) []ri.Ev {
+	curFeed = b
 	a := r.p.Feed(b)
 	x := r.p.Expire()
 	out := append(ri.ConvAll(a), ri.ConvAll(x)...)
@@ -72,6 +75,9 @@ func x11(intro string, cb, cx, cy int) []byte {
 
 func main() {
 	w := hc.Start("C12")
+	w.WatchStall(func() (string, string, interface{}) {
+		return "decode", "decoding " + q(curFeed) + " (collectEventsFromInput does not return)", map[string]interface{}{"W": 80, "H": 24, "Charset": "UTF-8", "Reports": []string{string(curFeed)}}
+	})
 	w.R.Rule = "single reports: SGR button code 0..255 x final M/m x column,row in {-3,-1,0,1,2,w-1,w,w+1,w+100,12345}^2 x introducer {ESC[, 0x9b} x parser state {no press outstanding, press outstanding} on 80x24 and 3x2 screens; X11: Cb x Cx x Cy (thorough: all 2^24; quick: 256x16x16) x introducer; histories: BFS over all sequences (depth 4 quick / 6 thorough, state-deduplicated) of press/release/drag/motion/wheel reports as a conforming xterm emits them plus the 'motion claims button 0 while none is held' quirk, per encoding; every event compared with an independent decoder of the xterm protocol. distinct_nontrivial = distinct expected (position,buttons,modifiers) outcomes among reports that carry a button, wheel or modifier"
 	w.R.Assumptions = []string{"button masks for wheel left/right (66,67), extra buttons (bit 7), motion+wheel and X11 button bytes below 32 are not fixed by the statement and are not compared (position and modifiers still are)", "X11 histories contain drag reports only while a press is outstanding (what a conforming terminal sends)"}
 
